@@ -256,6 +256,12 @@ def check_variant(ctx, tf, vname, raw_ts, ref, desc, eager0):
             for off, ln in ((0, 0), (n // 2, 0), (n, 0), (n // 2, 1), (max(n - 1, 0), 5), (1, n)):
                 attempt('read_data(%s,%s)' % ('0' if off == 0 else 'n' if off == n else 'k', '0' if ln == 0 else 'm'),
                         lambda: ch.read_data(off, ln), R[off:off + ln], pre + '.read_data(window)')
+            # offsets and lengths given as NumPy integers of small widths (taken from an index array) mean the same as Python ints
+            if n >= 4:
+                for o_ in sorted({n // 3, n // 2, (2 * n) // 3, n - 3}):
+                    for ity in (np.int16, np.int32, np.uint16, np.int64):
+                        if o_ < 32000:
+                            attempt('read_data(%s offset)' % ity.__name__, lambda: ch.read_data(ity(o_), ity(3)), R[o_:o_ + 3], pre + '.read_data(numpy-int)')
             if n <= 30:
                 try:
                     order = list(range(n)) + [-1] * (n > 0) + list(range(n - 1, -1, -1)) + [(7 * j + 3) % n for j in range(n)]
